@@ -184,6 +184,10 @@ func limexec(args []string) {
 	if fsz >= 0 {
 		syscall.Setrlimit(syscall.RLIMIT_FSIZE, &syscall.Rlimit{Cur: uint64(fsz), Max: uint64(fsz)})
 	}
+	if v, _ := strconv.ParseUint(os.Getenv("VERIF_LIMEXEC_NOFILE"), 10, 64); v > 0 {
+		// descriptors: a run must not need more of them the more files it is given
+		syscall.Setrlimit(syscall.RLIMIT_NOFILE, &syscall.Rlimit{Cur: v, Max: v})
+	}
 	path, err := exec.LookPath(rest[0])
 	if err != nil {
 		fmt.Fprintln(os.Stderr, "limexec:", err)
